@@ -111,7 +111,11 @@ type Op struct {
 	WSText     bool    `json:",omitempty"` // websocket: send text messages
 	StayOpen   bool    `json:",omitempty"` // do not close the connection after a failing CONNACK
 	AckDup     bool    `json:",omitempty"` // connect: now and then a PUBACK for a packet identifier that is not in use follows a real acknowledgement
-	CarryAcks  bool    `json:",omitempty"` // connect: acknowledgements held back on the previous connection are sent right behind CONNECT
+	CarryAcks  bool    `json:",omitempty"`
+	// Trigger: the operation is not issued at its turn but when the simulator fires the named trigger (e.g.
+	// "hello>n1": a federation Hello reply is delivered to node n1); it is skipped if that does not happen within D.
+	Trigger string `json:",omitempty"`
+	Instant bool   `json:",omitempty"` // the packet reaches the broker in the instant it is sent // connect: acknowledgements held back on the previous connection are sent right behind CONNECT
 
 	// subscribe / unsubscribe
 	Subs    []mqttc.Sub `json:",omitempty"`
